@@ -53,6 +53,7 @@ pub fn c01(ctx: &Ctx) -> Collector {
     run_space(&col, 13, &spaces::s_small(if ctx.tier.thorough() { &[None, Some(0)] } else { &[None] }, ctx.tier.thorough()), &p, true, &no_extra);
     run_space(&col, 14, &spaces::s_cap_families(ctx.tier.thorough()), &p, true, &no_extra);
     run_space(&col, 15, &spaces::s_cross(ctx.tier.thorough()), &p, true, &no_extra);
+    run_space(&col, 16, &spaces::s_pair_ctx(ctx.tier.thorough()), &p, true, &no_extra);
     seeded_supplement(ctx, &col, 20, &p, true);
     col
 }
@@ -206,6 +207,7 @@ pub fn c06(ctx: &Ctx) -> Collector {
     run_space(&col, 13, &spaces::s_opt(ctx.tier.thorough()), &p, true, &no_extra);
     run_space(&col, 14, &spaces::s_cap_families(ctx.tier.thorough()), &p, true, &no_extra);
     run_space(&col, 15, &spaces::s_cross(ctx.tier.thorough()), &p, true, &no_extra);
+    run_space(&col, 16, &spaces::s_pair_ctx(ctx.tier.thorough()), &p, true, &no_extra);
     seeded_supplement(ctx, &col, 20, &p, true);
     col
 }
@@ -315,6 +317,7 @@ pub fn c09(ctx: &Ctx) -> Collector {
     // automatic mode over the lengths of each alphabet up to the v40 capacity (mode left automatic wherever the
     // content permits): a detection that changes with the length (e.g. a shortcut for long inputs) shows here
     run_space(&col, 4, &spaces::s_len_tier(Family::Ctr, 7200, ctx.tier.thorough()), &p, false, &c09_extra);
+    run_space(&col, 5, &spaces::s_pair_ctx(ctx.tier.thorough()), &p, false, &c09_extra);
     col
 }
 
